@@ -25,7 +25,7 @@ def observe(buf_codes, funcs, keep_padding):
     from mathy_core.tokenizer import Tokenizer
     from mathy_core.expressions import SgnExpression, AbsExpression
 
-    t = Tokenizer(exclude_padding=not keep_padding)
+    t = Tokenizer(exclude_padding=not keep_padding) if len(buf_codes) % 2 else Tokenizer(not keep_padding)      # keyword / positional in turn
     t.functions = {"".join(map(chr, f)): (SgnExpression if f == SGN else AbsExpression) for f in funcs}
     text = "".join(map(chr, buf_codes))
     try:
